@@ -46,6 +46,8 @@ def mon01(scn, d):
     return None
 
 def run(chk):
+    _impl0, _ = build_impl()
+    _rt = start_realtime(_impl0) if _impl0 is not None else None
     r = standard_run(chk, PROFILE, 4000, 40000)
     if r is None: return
     drv, impl, scns, ms, ds = r
@@ -60,4 +62,5 @@ def run(chk):
         if isinstance(dp, str): return None
         return ("step %d (%s): messages naming clients differ from the model for which 'one verdict, then silence' is proved: daemon %r, model %r" % (i, step_label(scn, i), dp, mp), False)
     analyse(chk, drv, impl, scns, ms, ds, project=proj, judge=judge, monitor=mon01, what="verdict discipline: ", nontrivial=reached_verdict)
+    if _rt is not None: finish_realtime(chk, _rt, 'verdict discipline: ')
     chk.cov["rule"] = "histories with 1-6 concurrently registering clients, ids reused and re-announced while live, stray replies, disconnects and registered notices at every stage; monitor (independent of the model) run on the daemon's trace: live set from the input, every client message and query tag must name a live instance with its serial, at most one d, nothing after D/R/k; distinct non-trivial = distinct traces reaching a verdict"
